@@ -52,6 +52,7 @@ PROPS = {
     'C14': dict(suites=[('hash', [])], column='kv', relevant=lambda r: r['name'] in HASH_CMDS, title='Hash commands'),
     'C15': dict(suites=[('list', [])], column='kv', relevant=lambda r: r['name'] in LIST_CMDS, title='List commands'),
     'C16': dict(suites=[('set', [])], column='kv', relevant=lambda r: r['name'] in SET_CMDS, title='Set commands'),
+    'C18': dict(suites=[('pubsub', [])], column='ps', clscol='scls', relevant=lambda r: True, title='Pub/Sub'),
     'C19': dict(suites=ALL_DATA, column='mem', clscol='mcls', relevant=lambda r: True, title='Memory figure is a function of the dataset'),
     'C20': dict(suites=ALL_DATA, column='iso', relevant=lambda r: True, title='Logical databases are isolated'),
 }
@@ -108,8 +109,15 @@ def build(cx, prop=None):
     lock = open(os.path.join(cx.cache, 'lock'), 'w')
     fcntl.flock(lock, fcntl.LOCK_EX)
     try:
-        shutil.copyfile('/repo/go.sum', os.path.join(cx.harness, 'go.sum'))
-        r = run(['go', 'build', '-tags', 'verif', '-o', cx.vh + '.new', './vh/'], cwd=cx.harness, timeout=900)
+        repo = os.environ.get('VERIF_REPO', '/repo')     # VERIF_REPO: build against another working tree of the project
+        shutil.copyfile(os.path.join(repo, 'go.sum'), os.path.join(cx.harness, 'go.sum'))
+        extra = []
+        if repo != '/repo':
+            mf = os.path.join(cx.cache, 'alt.mod')
+            open(mf, 'w').write(open(os.path.join(cx.harness, 'go.mod')).read().replace('=> /repo', '=> ' + repo))
+            shutil.copyfile(os.path.join(repo, 'go.sum'), os.path.join(cx.cache, 'alt.sum'))
+            extra = ['-modfile=' + mf]
+        r = run(['go', 'build'] + extra + ['-tags', 'verif', '-o', cx.vh + '.new', './vh/'], cwd=cx.harness, timeout=900)
         res['harness_log'] = r.stdout
         if r.returncode != 0:
             return res
@@ -258,6 +266,27 @@ def run_suite(cx, work, suite, args, seed, tier, replay=None):
                 name = 'authorize'
             rows.append(dict(seq=seq, now=0, db=0, cmd=cmd, kind=kind, payload=payload, pre='', post='', name=name,
                              model=m[0], detail=m[1], f=m[2], suite=suite, line=l[0]))
+        elif l.startswith('P ') or l.startswith('G '):
+            w = l.rstrip('\n').split(' ')
+            seq = w[1]
+            m = verd.get(seq, ('?', 'no verdict', {}))
+            cmd, kind, payload = [], 'glob', b''
+            if l.startswith('P '):
+                # first command of the block: <conn> <argc> <args>* <kind> <payload>
+                n = int(w[3])
+                kind = w[2]
+                if n > 0:
+                    argc = int(w[5])
+                    cmd = [unx(x) for x in w[6:6 + argc]]
+                    payload = unx(w[6 + argc + 1])
+                    if n == 1:
+                        kind = w[6 + argc]
+                name = m[2].get('shape', 'pubsub').split('/')[0]
+            else:
+                cmd = [unx(w[2]), unx(w[3])]
+                name = 'glob'
+            rows.append(dict(seq=seq, now=0, db=0, cmd=cmd, kind=kind, payload=payload, pre='', post='', name=name,
+                             model=m[0], detail=m[1], f=m[2], suite=suite, line=l[0]))
         elif l.startswith('T '):
             t = parse_tline(l.rstrip('\n'))
             m = verd.get(t['seq'], ('?', 'no verdict', {}))
@@ -276,7 +305,7 @@ def run_suite(cx, work, suite, args, seed, tier, replay=None):
 
 
 def seq_prefix(seqmap, seqid):
-    if seqid in seqmap and ('z' in seqmap[seqid] or 'writes' in seqmap[seqid]):
+    if seqid in seqmap and ('z' in seqmap[seqid] or 'writes' in seqmap[seqid] or 'glob' in seqmap[seqid]):
         return seqmap[seqid]                      # a single authorization decision / one wire session
     sid, idx = seqid.rsplit('.', 1)
     s = seqmap.get(sid)
@@ -339,6 +368,21 @@ def shrink(cx, work, suite, seq, pred, budget=60):
             ops = cand['ops']
         else:
             i += 1
+    # blocks of several commands (pub/sub): also drop commands inside the last block
+    if ops and isinstance(ops[-1], dict) and len(ops[-1].get('cmds', [])) > 1:
+        j = 0
+        while j < len(ops[-1]['cmds']) and len(ops[-1]['cmds']) > 1 and tries < budget + 20:
+            blk = dict(ops[-1], cmds=ops[-1]['cmds'][:j] + ops[-1]['cmds'][j + 1:])
+            cand = dict(seq, ops=ops[:-1] + [blk])
+            tries += 1
+            try:
+                rows = replay_seq(cx, work, suite, cand, 'shrink')
+            except Exception:
+                rows = []
+            if rows and pred(rows[-1]):
+                ops = cand['ops']
+            else:
+                j += 1
     return dict(seq, ops=ops)
 
 
@@ -495,7 +539,7 @@ def decide(cx, prop, tier, seed, t_start):
     # ---- evidence
     distinct = set()
     for r in rel:
-        if r.get('line') in ('Z', 'A', 'W') or r['pre'] != r['post'] or (r['kind'] == 'ok' and r['payload'] not in (b'$-1\r\n', b'')):
+        if r.get('line') in ('Z', 'A', 'W', 'P', 'G') or r['pre'] != r['post'] or (r['kind'] == 'ok' and r['payload'] not in (b'$-1\r\n', b'')):
             distinct.add((r['name'], len(r['cmd']), r['kind'], r['f'].get(col, 'na'), r['f'].get(clscol, '-'), r['f'].get('shape', '')))
     samples = []
     seen = set()
